@@ -214,9 +214,9 @@ def main(tier):
             'protocol checker; distinct = distinct (adjacency kinds of response/event/output messages, request prefix)')
     V = Verdict('C12', tier, rule)
     V.minima = {'wire_messages': 3000, 'output_events': 500, 'requests': 600, 'ill_formed_requests': 60} if tier == 'quick' else \
-        {'wire_messages': 50000, 'output_events': 25000, 'requests': 3000, 'ill_formed_requests': 350}
+        {'wire_messages': 15000, 'output_events': 8000, 'requests': 1200, 'ill_formed_requests': 150}
     V.assumptions = ['the monitor\'s own Content-Length framing parser is the reference for well-formed frames']
-    n = 30 if tier == 'quick' else 150
+    n = 30 if tier == 'quick' else 60
     specs = [(i, 0 if i % 3 == 0 else 1000 * common.seed() + i, tier) for i in range(n)]
     # compile the four program shapes up front
     for i in range(12):
